@@ -9,6 +9,9 @@ from mc.props import C01
 from mc.ref import hdlc as RHm
 
 
+_QUICK = True
+
+
 def observe(cfg, chunks):
     frames, _ = X.feed(cfg, chunks)
     return X.obs(frames)
@@ -81,7 +84,7 @@ def _work_e3(task) -> core.Part:
                 p.add("nontrivial")
             p.out(f"frames={min(len(ref), 3)}{'+' if len(ref) > 3 else ''},valid={sum(1 for x in ref if x[1])}")
             alts = [("bytewise", X.bytewise(S))] + [(f"cut{c[0]}", X.split(S, c)) for c in X.single_cuts(n) if c]
-            if pairs and len(ed) <= (1 if n <= 24 else 0) and n <= 60:
+            if pairs and len(ed) <= (1 if (n <= 24 and not _QUICK) else 0) and n <= 60:
                 alts += [(f"cut{c[0]},{c[1]}", X.split(S, c)) for c in X.pair_cuts(n)]
             for how, chunks in alts:
                 got = observe(cfg, chunks)
@@ -261,7 +264,8 @@ def _work_aligned(task) -> core.Part:
 
 
 def main(run: core.Run) -> int:
-    q = run.quick
+    global _QUICK
+    q = _QUICK = run.quick
     run.rule = ("graph: every reachable reader state (full snapshot digest) x every event, plus from every state every chunk of 2..k "
                 "events in one read(); E3: every <=k-edit stream, one-shot vs octet-wise vs every single cut; non-trivial = distinct "
                 "(configuration, stream) whose one-shot run returns >=1 frame, plus graph edges that return a frame")
